@@ -103,6 +103,17 @@ theorem typed_nat_int_readers_exact (bs : Bytes) :
     deInt bs = (match specReadInt bs with | none => .err .eof | some x => .ok x) :=
   ⟨deNat_spec bs, deInt_spec bs⟩
 
+/-- **the i128 decoder (`leb128.rs::decode_int`) rejects precisely the strings whose value is out of range**: a
+terminated string of any length decodes to its two's-complement value when that lies in [-2^127, 2^127), is an
+overflow error otherwise, and an unterminated one is an end-of-input error (the accumulator of the low 128 bits and
+the two flags "everything above bit 127 was zero / one" are an invariant of the loop). -/
+theorem i128_decoder_exact (bs : Bytes) :
+    decodeInt128 bs = (match splitLeb bs with
+      | none => .err .eof
+      | some (p, r) =>
+        if -(2 : Int) ^ 127 ≤ sval p ∧ sval p < (2 : Int) ^ 127 then .ok (sval p, r) else .err .overflow) :=
+  decodeInt128_exact bs
+
 /-- non-vacuity of the big-number path: `2^70` and `-2^70 - 1` are beyond the word path -/
 example : ¬ (-(2 : Int) ^ 63 ≤ (2 : Int) ^ 70 ∧ (2 : Int) ^ 70 < (2 : Int) ^ 63) := by decide
 example : Impl.intEncode (-(2 : Int) ^ 70 - 1) = [0xff, 0xff, 0xff, 0xff, 0xff, 0xff, 0xff, 0xff, 0xff, 0xff, 0x7e] := by
